@@ -12,6 +12,8 @@ style = {
   "1": "Prefer a change inside one of the mechanisms named in the anchors.",
   "2": "Prefer a change that needs two cooperating sites that each look fine alone, or a multi-step sequence / unusual input to manifest. Avoid the most obvious one-line change in the anchored mechanism.",
   "3": "Prefer a subtle boundary-condition or branch-specific change (a particular size, a particular kind of target, a rarely taken branch), different from simply deleting a check.",
+  "4": "Prefer a change whose effect shows only for an input class at the edge of the quantifier's range (a maximum size, a legal but unusual combination of fields, a state that is reachable only through an earlier protocol operation), not for typical inputs.",
+  "5": "Prefer a change in code OUTSIDE the anchored mechanisms that the property nevertheless depends on (a helper, a manager, a codec, an initialisation or reload path), leaving the anchored functions themselves untouched.",
 }.get(n, "")
 print(f"""You are helping test a verification framework for the Go project jhalter/mobius (a server for the 1990s Hotline chat/file-sharing protocol). Your job is to act as a realistic source of regressions.
 
